@@ -30,8 +30,8 @@ def run(ctx):
         return
     thorough = ctx.thorough
     depth = 6 if thorough else 4
-    n_l1 = 900 if thorough else 110
-    n_l3 = 700 if thorough else 70
+    n_l1 = 900 if thorough else 70
+    n_l3 = 700 if thorough else 45
     inputs_per = 6 if thorough else 4
 
     # ---------------- L1: compiler output and acceptance, well-typed programs and mutants
